@@ -34,8 +34,14 @@ pub async fn run_behaviour(b: &Value, out: &mut Vec<Value>) {
         let (outs, issue) = s.step(c, &st["cmd"]).await;
         let panics = take_panics();
         let iss: Vec<String> = issue.into_iter().collect();
+        let mut blocked = false;
         if i + 1 >= from {
             let post = s.snapshot().await;
+            blocked = post["blocked"].as_bool().unwrap_or(false);
+            let mut iss = iss;
+            if blocked {
+                iss.push("watchdog: the server state stayed locked for 8 s (a handler is holding it)".to_string());
+            }
             out.push(json!({"b": id, "i": i + 1, "c": c, "cmd": st["cmd"], "outs": outs,
                             "post": post, "issue": iss, "panics": panics}));
         } else if !iss.is_empty() || !panics.is_empty() {
@@ -43,9 +49,13 @@ pub async fn run_behaviour(b: &Value, out: &mut Vec<Value>) {
             out.push(json!({"pathissue": true, "b": id, "i": i + 1, "c": c, "cmd": st["cmd"],
                             "issue": iss, "panics": panics}));
         }
+        if blocked {
+            // nothing further can be learnt from this server instance
+            break;
+        }
         s.retire_ended();
     }
-    s.stop().await;
+    let _ = tokio::time::timeout(std::time::Duration::from_secs(5), s.stop()).await;
 }
 
 pub fn main(args: &[String]) -> i32 {
